@@ -175,7 +175,7 @@ func c15Ops() []Op {
 }
 
 func runC15(r *ev.Run) {
-	r.Rule = "every header byte 0..99 x every value 0..255 on a valid base image per page size, judged at Open (must-reject headers also with the read lock refused and with a writer reported in RESERVED while the file is opened) and on the re-read path of a long-lived handle (swap in, read with every operation, swap back, read again), and as the first transaction of a handle that was opened before the change; non-trivial = a mutation that changes the reference verdict (must-reject) or a must-accept mutation of a field; every ordered pair (p1, p2) of legal page sizes on real files: a handle (one that read, one that was only opened) on a 3-page database of page size p1, another connection rewrites the file with page size p2, the handle must read what SQLite reads"
+	r.Rule = "every header byte 0..99 x every value 0..255 on a valid base image per page size, judged at Open (must-reject headers also with the read lock refused and with a writer reported in RESERVED while the file is opened) and on the re-read path of a long-lived handle (swap in, read with every operation, swap back, read again), and as the first transaction of a handle that was opened before the change; non-trivial = a mutation that changes the reference verdict (must-reject) or a must-accept mutation of a field; every ordered pair (p1, p2) of legal page sizes on real files: a handle (one that read, one that was only opened) on a 3-page database of page size p1, another connection rewrites the file with page size p2, the handle must read what SQLite reads; window family (as in C08): another process switches the file to WAL mode at every pager-call boundary of a read on a handle that has read before: a switch complete before the lock request must make that very read fail"
 	sizes := []int{512, 4096, 65536}
 	if r.Thorough() {
 		sizes = PageSizes
@@ -204,6 +204,7 @@ func runC15(r *ev.Run) {
 	}
 	c15RealFiles(r)
 	c15PageSizePairs(r)
+	windowFamily(r, "C15", c15wWriters)
 }
 
 func c15Baseline(r *ev.Run, base []byte, ops []Op) []OpResult {
